@@ -58,6 +58,37 @@ EFFECTFUL = {"every", "counter", "push", "push_distinct", "pop", "put", "stop", 
              "stack", "tally", "sum", "subtotal", "first", "count"}
 
 
+def is_onmatch_component(n):
+    """a top-level component that carries the onmatch qualifier: an effectful function or an assignment"""
+    if n["k"] == "fn":
+        return "onmatch" in n["quals"]
+    if n["k"] == "eq" and n["op"] == "=" and n["l"]["k"] == "var":
+        return "onmatch" in n["l"]["quals"]
+    return False
+
+
+def strip_onmatch(n):
+    import copy
+
+    m = copy.deepcopy(n)
+    if m["k"] == "fn":
+        m["quals"] = [q for q in m["quals"] if q != "onmatch"]
+    else:
+        m["l"]["quals"] = [q for q in m["l"]["quals"] if q != "onmatch"]
+    return m
+
+
+def uses_state(n):
+    """does the component read a variable or a stack (so that its meaning depends on when the onmatch component runs)?"""
+    if n["k"] == "var":
+        return True
+    if n["k"] == "fn":
+        return n["name"] in ("get", "peek", "pop", "stack", "failed", "valid", "count", "has_matches") or any(uses_state(a) for a in n["args"])
+    if n["k"] == "eq":
+        return uses_state(n["l"]) or uses_state(n["r"])
+    return False
+
+
 def has_effect(n):
     if n["k"] == "fn":
         if n["name"] in EFFECTFUL and not (n["name"] == "count" and not n["args"]):
@@ -618,7 +649,22 @@ class Spec:
             self.stop_fired = self.skip_fired = False
             votes = []
             cut = False
-            for j, c in enumerate(self.prog):
+            om = [j for j, c in enumerate(self.prog) if is_onmatch_component(c)]
+            if om:
+                # docs/qualifiers.md: an onmatch component takes effect only on lines where all the other components match.
+                # The meaning is settled where there is one such component, AND mode, and the others neither have effects
+                # nor read state the onmatch component could change.
+                if len(om) != 1 or not self.dm:
+                    raise OutOfClass("onmatch: several onmatch components or OR mode")
+                others = [c for j, c in enumerate(self.prog) if j != om[0]]
+                if any(has_effect(c) or uses_state(c) for c in others):
+                    raise OutOfClass("onmatch beside components with effects or state")
+                votes = [self.vote(c) for c in others]
+                if all(v is not False for v in votes):
+                    votes.append(self.vote(strip_onmatch(self.prog[om[0]])))
+                if self.stop_fired or self.skip_fired:
+                    raise OutOfClass("onmatch on a control function")
+            for j, c in enumerate(self.prog if not om else []):
                 v = self.vote(c)
                 votes.append(v)
                 if (self.stop_fired or self.skip_fired) and j < len(self.prog) - 1:
